@@ -210,6 +210,37 @@ func c20Helpers() []helper {
 			_ = c.Append(it)
 			return "ok"
 		}},
+		// a nil kind as a MEMBER of a list that is converted to its IRIs: nothing stands for it in the result
+		{"[a,x,b].IRIs()", func(it ap.Item, _ *cbProbe) string {
+			l := ap.ItemCollection{ap.IRI("https://example.com/a"), it, ap.IRI("https://example.com/b")}
+			return fmt.Sprint(l.IRIs())
+		}},
+		{"ToIRIs([x])", func(it ap.Item, _ *cbProbe) string {
+			r, err := ap.ToIRIs(ap.ItemCollection{it})
+			if err != nil || r == nil {
+				return "err"
+			}
+			return fmt.Sprint(*r)
+		}},
+		{"OnIRIs([x,a])", func(it ap.Item, _ *cbProbe) string {
+			out := "not called"
+			l := ap.ItemCollection{it, ap.IRI("https://example.com/a")}
+			_ = ap.OnIRIs(&l, func(i *ap.IRIs) error { out = fmt.Sprint(*i); return nil })
+			return out
+		}},
+		// the collections of an object whose property holds the nil kind: the id-derived IRI, as for an unset property
+		{"Likes.IRI(obj{likes:x})", func(it ap.Item, _ *cbProbe) string {
+			o := &ap.Object{ID: "https://example.com/o", Type: ap.NoteType, Likes: it, Shares: it, Replies: it}
+			return fmt.Sprintf("%s %s %s", ap.Likes.IRI(o), ap.Shares.IRI(o), ap.Replies.IRI(o))
+		}},
+		{"Inbox.IRI(actor{inbox:x})", func(it ap.Item, _ *cbProbe) string {
+			a := &ap.Actor{ID: "https://example.com/a", Type: ap.PersonType, Inbox: it, Outbox: it, Followers: it, Following: it, Liked: it}
+			return fmt.Sprintf("%s %s %s %s %s", ap.Inbox.IRI(a), ap.Outbox.IRI(a), ap.Followers.IRI(a), ap.Following.IRI(a), ap.Liked.IRI(a))
+		}},
+		{"Likes.Of(obj{likes:x})", func(it ap.Item, _ *cbProbe) string {
+			o := &ap.Object{ID: "https://example.com/o", Type: ap.NoteType, Likes: it}
+			return fmt.Sprint(ap.IsNil(ap.Likes.Of(o)))
+		}},
 		{"IRIs.Contains", func(it ap.Item, _ *cbProbe) string {
 			return fmt.Sprint(ap.IRIs{"https://example.com/a"}.Contains(it))
 		}},
@@ -411,6 +442,16 @@ func c20Neutral(h string) string {
 		return "true"
 	case "CopyItemProperties(x,obj)", "CopyItemProperties(obj,x)":
 		return "err"
+	case "[a,x,b].IRIs()":
+		return "[https://example.com/a https://example.com/b]"
+	case "ToIRIs([x])":
+		return "[]"
+	case "OnIRIs([x,a])":
+		return "[https://example.com/a]"
+	case "Likes.IRI(obj{likes:x})":
+		return "https://example.com/o/likes https://example.com/o/shares https://example.com/o/replies"
+	case "Inbox.IRI(actor{inbox:x})":
+		return "https://example.com/a/inbox https://example.com/a/outbox https://example.com/a/followers https://example.com/a/following https://example.com/a/liked"
 	case "DerefItem":
 		return "0"
 	}
